@@ -214,7 +214,7 @@ func (rn *runner) mkFacts() *facts {
 		Accts:          knownAccts(rn.n),
 	}
 	f.NotaryKeys = append(f.NotaryKeys, chainx.Acc(4).PublicKey())
-	f.Balance = func(h util.Uint160) int64 { return bc.GetUtilityTokenBalance(h).Int64() }
+	f.Balance = func(h util.Uint160) int64 { return bc.GetUtilityTokenBalance(h, util.Uint160{}).Int64() }
 	// the ledger content, from the blocks the scenario fed to the replica
 	blocks, _ := rn.e.sc.Blocks(rn.st.Hist)
 	for _, bb := range blocks {
